@@ -47,7 +47,13 @@ def parseF : Nat → String → Option F
     else
       match s.splitOn ":" with
       | [op, f, v] =>
-        if op == "in" || op == "nin" then
+        if op == "like" || op == "nlike" || op == "ilike" || op == "nilike" then
+          -- value token: <mode digit><hex of the pattern text without the % signs>
+          let mode := ((v.take 1).toString.toNat?).getD 0
+          match Bytes.ofHex (v.drop 1).toString with
+          | some pat => some (.like f mode pat (op == "nlike" || op == "nilike") (op == "ilike" || op == "nilike"))
+          | none => none
+        else if op == "in" || op == "nin" then
           let vs := (v.splitOn ";").filterMap parseV
           some (if op == "in" then .inn f vs else .nin f vs)
         else do
